@@ -178,7 +178,11 @@ impl Decoder for Codec {
                     }
                 }
                 DecodeState::PublishHeader(fixed) => {
-                    if let Some(len) = Publish::packet_header_size(src, fixed.first_byte)? {
+                    if let Some(len) = Publish::packet_header_size(
+                        src,
+                        fixed.first_byte,
+                        fixed.remaining_length,
+                    )? {
                         self.state.set(DecodeState::PublishProperties(len, fixed));
                     } else {
                         return Ok(None);
